@@ -1,6 +1,7 @@
 (* A denomination-changing action controller, registered under ACTION_SWAP by the C06 correspondence
    harness (harness/internal/fam/swap.go is its Go twin): it sends the whole running coin to a pool
-   account, receives half as many (rounded up) coins of the other denomination, and replaces the
+   account, receives as many coins of the other denomination when the amount is a multiple of three and
+   half as many (rounded up) otherwise, and replaces the
    running coin.  It exists to exercise the dispatcher with a controller that changes the
    denomination; the chain itself wires only the fee controller. *)
 From Coq Require Import String Ascii List ZArith Bool.
@@ -20,7 +21,7 @@ Definition swap_ctrl (cfg : config) (pool : string) : action_ctrl := fun a t =>
       match other_denom (t_ddenom t) with
       | None => mfail "swap: unsupported denomination"
       | Some d2 =>
-          let out := (t_damt t + 1) / 2 in
+          let out := if (t_damt t) mod 3 =? 0 then t_damt t else (t_damt t + 1) / 2 in
           _ <- ext_moving (CSend (cfg_orbiter cfg) pool (t_ddenom t) (t_damt t))
                           [MSend (cfg_orbiter cfg) pool (t_ddenom t) (t_damt t)] "swap: send failed" ;;
           _ <- ext_moving (CSend pool (cfg_orbiter cfg) d2 out)
